@@ -643,11 +643,24 @@ def c25(idx: Index, rep: Report, tier: str) -> None:
     # the incremental check (which lowers the distances of everything reachable and detects a negative cycle)
     rule5 = "C25.5 T2 every-new-arc-is-propagated"
     addf = cls.methods["add"]
-    acfg = cfg_of(addf)
-    stores = [nd for nd in acfg.nodes if isinstance(nd.ast, ast.Assign) and isinstance(nd.ast.targets[0], ast.Subscript) and norm(nd.ast.targets[0].value) == "self._constraints"]
-    checks = {nd for nd, c in cfg_nodes_with_call(acfg, "_inc_check")}
+
+    def _arc_sites(fn):
+        g = cfg_of(fn)
+        st_ = [nd for nd in g.nodes if isinstance(nd.ast, ast.Assign) and isinstance(nd.ast.targets[0], ast.Subscript) and norm(nd.ast.targets[0].value) == "self._constraints"]
+        ch_ = {nd for nd, c in cfg_nodes_with_call(g, "_inc_check")}
+        return g, st_, ch_
+
+    acfg, stores, checks = _arc_sites(addf)
     if not stores or not checks:
-        raise AnalysisError(f"{rule5}: add() no longer stores an arc / calls _inc_check")
+        # the store of the arc and its propagation may have been extracted together into a private helper of the class
+        for c in walk_no_nested(addf.node):
+            if isinstance(c, ast.Call) and isinstance(c.func, ast.Attribute) and norm(c.func.value) == "self" and c.func.attr.startswith("_") and c.func.attr in cls.methods and c.func.attr != "_inc_check":
+                g2, st2, ch2 = _arc_sites(cls.methods[c.func.attr])
+                if st2 and ch2:
+                    addf, acfg, stores, checks = cls.methods[c.func.attr], g2, st2, ch2
+                    break
+    if not stores or not checks:
+        raise AnalysisError(f"{rule5}: add() (or a helper it calls) no longer stores an arc / calls _inc_check")
     for st in stores:
         w = acfg.path_avoiding(st, acfg.exit, checks)
         rep.check(w is None, rule5, "a stored arc is followed by the incremental check on every path", addf.loc(st.ast), construct=norm(st.ast)[:60] + (" … self._inc_check(…)" if w is None else " — a path returns without _inc_check"), detail="" if w is None else "an arc is added without propagating it: the distances of the events reachable from its target are not lowered (the reported model violates earlier constraints) and a negative cycle closed by this arc is not detected (an inconsistent network is reported consistent)", function=addf.qualname, path=path_text(w) if w else None)
@@ -674,7 +687,7 @@ def c25(idx: Index, rep: Report, tier: str) -> None:
                             filt.append((S, x))
             rep.check(not filt, rule, f"{m.name}: an improved event is always queued again", m.loc(c), construct=norm(c) + ("" if not filt else f" only if `{norm(filt[0][1])}`"), detail="" if not filt else f"`{filt[0][0]}` only grows: an event that was expanded once is never expanded again although its distance improved later, so its successors keep stale distances — the model violates inserted constraints and a negative cycle through that event is missed", function=m.qualname)
     rep.count("queue_insertions", n)
-    rep.require_min(rule, "queue_insertions", 2)
+    rep.require_min(rule, "queue_insertions", 1)
 
 
 # ------------------------------------------------------------------------------------ C31
@@ -3032,6 +3045,12 @@ def c24(idx: Index, rep: Report, tier: str) -> None:
                     if isinstance(e, ast.Attribute) and norm(e.value) == "self":
                         return True
                     if isinstance(e, ast.Call) and call_name(e) == "setdefault" and isinstance(e.func.value, ast.Attribute) and norm(e.func.value.value) == "self":
+                        return True
+                    # `self._table[key]`: the entry of the owner's table itself (created beforehand when missing)
+                    if isinstance(e, ast.Subscript) and isinstance(e.value, ast.Attribute) and norm(e.value.value) == "self":
+                        return True
+                    # a private helper of the owner that returns such entries
+                    if isinstance(e, ast.Call) and isinstance(e.func, ast.Attribute) and norm(e.func.value) == "self" and e.func.attr.startswith("_"):
                         return True
                     return False
 
